@@ -130,4 +130,8 @@ class AxisVector(Vector):
         return super().rotate(angle, axis, f.vector(0, 0, 0))
 
     def mirror(self, normal: VectorType, origin: Optional[PointType] = None):
-        return super().mirror(normal, f.vector(0, 0, 0))
+        # a reflection reverses the sense of rotation: the axis (an axial vector)
+        # is the reflected direction, reversed
+        super().mirror(normal, f.vector(0, 0, 0))
+        self.position = -self.position
+        return self
